@@ -545,6 +545,15 @@ func checkLoaderPipeline(w *World, r *Report) {
 				found = true
 			}
 		}
+		// the decoder itself hands every decoded pipeline to a storing helper of the same receiver
+		if !found {
+			for _, g := range calleesIn(ld) {
+				if g != ld && len(storesIn(g)) > 0 {
+					splits = append(splits, split{ld, ld, g})
+					found = true
+				}
+			}
+		}
 		if !found {
 			r.Viol("loader.store", FuncName(ld)+": store into the merged map", w.Pos(ld.Pos()), "loader never stores into recv.Pipelines")
 		}
@@ -639,6 +648,9 @@ func checkLoaderPipeline(w *World, r *Report) {
 					}
 				}
 				okD = okAll && nTo > 0
+			}
+			if !okD && sp.entry == sp.decoder && sp.storer != sp.decoder {
+				okD = w.defaultsLoopBeforeCall(sp.entry, sp.storer)
 			}
 			r.Check(okD, "loader.defaults", key, pos, "a call that applies the concurrency default dominates the store", "no defaults call dominates the store: concurrency 0 would be rejected or stored unset")
 			// validate()==nil edge
@@ -1181,4 +1193,76 @@ func checkReloadUsesEquals(w *World, r *Report) {
 	if n == 0 {
 		r.Viol("reload.on-change", "package app: reload function", "-", "no function in package app calls ReplaceDefinitions")
 	}
+}
+
+// defaultsLoopBeforeCall: in entry, a completed loop over the decoded map M tests every element's
+// Concurrency against 0, stores 1 on the zero edge and writes the element back under its key; the
+// storing helper is called afterwards (outside that loop) with an element ranged from the same M.
+func (w *World) defaultsLoopBeforeCall(entry, storer *ssa.Function) bool {
+	var stCalls []ssa.CallInstruction
+	stCalls = findCalls(entry, func(_ string, c *ssa.CallCommon) bool { return c.StaticCallee() == storer })
+	if len(stCalls) == 0 {
+		return false
+	}
+	for _, f := range w.ifFacts(entry) {
+		a := f.Atom
+		if (a.Op != "==" && a.Op != "!=") || !strings.HasSuffix(a.L, ".Concurrency") || a.R != "0" {
+			continue
+		}
+		cell := strings.TrimSuffix(a.L, ".Concurrency")
+		zeroSucc := f.SuccTrue
+		if a.Op == "!=" {
+			zeroSucc = f.SuccFalse
+		}
+		zeroBlk := f.If.Block().Succs[zeroSucc]
+		hd, body := naturalLoop(f.If.Block())
+		if hd == nil {
+			continue
+		}
+		// the loop ranges over a map M
+		M := ""
+		for _, in := range hd.Instrs {
+			if nx, ok := in.(*ssa.Next); ok {
+				if rg, ok := nx.Iter.(*ssa.Range); ok {
+					M = w.AP(rg.X)
+				}
+			}
+		}
+		if M == "" {
+			continue
+		}
+		var fix *ssa.Store
+		var back *ssa.MapUpdate
+		allInstrs(entry, func(in ssa.Instruction) {
+			if !body[in.Block()] {
+				return
+			}
+			if st, ok := in.(*ssa.Store); ok && w.apAddr(st.Addr) == cell+".Concurrency" && isConstInt(st.Val, 1) && zeroBlk.Dominates(st.Block()) {
+				fix = st
+			}
+			if mu, ok := in.(*ssa.MapUpdate); ok && w.AP(mu.Map) == M && w.AP(mu.Key) == "rangekey("+M+")" {
+				back = mu
+			}
+		})
+		if fix == nil || back == nil || !instrDominates(fix, back) || len(earlyExits(hd, body)) > 0 {
+			continue
+		}
+		okCalls := true
+		for _, ci := range stCalls {
+			if body[ci.Block()] || !hd.Dominates(ci.Block()) {
+				okCalls = false
+			}
+			fromM := false
+			for _, arg := range ci.Common().Args {
+				if ap := w.AP(arg); ap == "rangeval("+M+")" || strings.HasPrefix(ap, "rangeval("+M+")") {
+					fromM = true
+				}
+			}
+			okCalls = okCalls && fromM
+		}
+		if okCalls {
+			return true
+		}
+	}
+	return false
 }
